@@ -197,6 +197,18 @@ void WorldQ::op_inject(const Json &op) {
   m->uid = uid; m->inj_start = k->clock;
   msgs.push_back(m); byid[m->id] = m;
   std::vector<Kernel::FdSpec> fds = {{0, k->of_preloaded(m->body, "body:" + m->id)}, {1, k->of_preloaded(m->env_raw, "env:" + m->id)}, {2, k->of_sink(logsink)}};
+  int64_t feed_delay = op.geti("feed_delay", 0);
+  if (feed_delay > 0) {
+    // a slow client: the message arrives in two pieces with a pause in between, so the injector blocks in read() for a while
+    Pipe *fp = k->new_pipe("slow-body:" + m->id); fp->cap = 262144;
+    fds[0] = {0, k->of_pipe_r(fp)};
+    std::string body = m->body; Kernel *kk = k;
+    k->spawn_native(k->cp(), "feeder", [kk, body, feed_delay](int, char **) { kk->cp()->sig[SIGPIPE].handler = SIG_IGN; size_t half = body.size() / 2; size_t off = 0;
+        while (off < half) { ssize_t w = kk->sys_write(1, body.data() + off, half - off); if (w <= 0) return 0; off += (size_t)w; }
+        kk->block([] { return false; }, kk->clock + feed_delay, false);
+        while (off < body.size()) { ssize_t w = kk->sys_write(1, body.data() + off, body.size() - off); if (w <= 0) return 0; off += (size_t)w; }
+        return 0; }, {{1, k->of_pipe_w(fp)}}, 1, 1, "/");
+  }
   int pid = k->spawn(k->cp(), home + "/bin/qmail-queue", {"qmail-queue"}, {}, fds, uid, gid, "/", m->id);
   m->inj_pid = pid; bypid[pid] = m;
   if (op.getb("wait", false)) { k->block([this, pid] { Proc *p = k->find_proc(pid); return !p || p->st != Proc::LIVE; }, -1, false); }
